@@ -545,7 +545,8 @@ func exact(k v4opt.Kind, L int) []byte {
 			return fill([]byte{1, byte(L - 2)}, L-2, 'a')
 		}
 	case v4opt.KNames:
-		if L < 1 || L > 255 {
+		// one name of exactly L octets: well-formed up to 255 (RFC 1035 §3.1), malformed - absent result - beyond
+		if L < 1 || L > 600 {
 			return nil
 		}
 		var b []byte
